@@ -44,6 +44,23 @@ Theorem C20_mutate_original : forall D K n (h : heap D K) a h' a',
 Proof. exact clone_mutate_original. Qed.
 Print Assumptions C20_mutate_original.
 
+(** the same over histories: after ANY sequence of assignments to objects of the clone every
+    tree of the original heap is as it was, and after ANY sequence of assignments to objects
+    that existed before the call the tree of the clone is as it was *)
+Theorem C20_history_clone : forall D K n (h : heap D K) a h' a',
+  clone D K n h a = Some (h', a') ->
+  forall ops, Forall (fun o => length h <= fst o) ops ->
+  forall m x t, abs D K m h x = Some t -> abs D K m (upds D K h' ops) x = Some t.
+Proof. exact clone_history_clone. Qed.
+Print Assumptions C20_history_clone.
+
+Theorem C20_history_original : forall D K n (h : heap D K) a h' a',
+  clone D K n h a = Some (h', a') ->
+  forall ops, Forall (fun o => fst o < length h) ops ->
+  forall m, abs D K m (upds D K h' ops) a' = abs D K m h' a'.
+Proof. exact clone_history_original. Qed.
+Print Assumptions C20_history_original.
+
 (** checkStructure (model [check]: a walk with the set of objects seen so far, failing on an
     object met twice or a dangling child): after walking the original from any set of
     pre-existing objects, the same walk continues through the clone without error - so the
